@@ -475,6 +475,15 @@ def _run_rw(case):
             sample = {"group": "rw", "program": prog["key"],
                       "written_lines": text.count("\n")}
 
+    # every name of the corpus (features carry their number, used modules are
+    # um<n>/uk8) is made unique per text: gfortran resolves forward-referenced
+    # derived types through names of OTHER modules of the same file
+    names = set(_RW_UNITS)
+    for item in batch.items:
+        names |= set(re.findall(r"\b(?:f\d+[a-z]\w*|u\d+[a-z]\w*)\b",
+                                item[2].lower()))
+    batch.unit_names = sorted(names)
+
     def only_conformant(key, _case, found):
         if found and not _source_ok(sources[key]):
             batch.count("source-not-conformant")
